@@ -30,7 +30,7 @@ package metadata
 
 //@ func GetRouteSecurityWithInheritance props C03,C04,C14
 //@ requires receiverAnnotations != nil
-//@ ensures own: implies(result1 == nil && secCount(*receiverAnnotations) > 0, isSecOf(*receiverAnnotations, result0))
+//@ ensures own: implies(result1 == nil && secCount(*receiverAnnotations) != 0, isSecOf(*receiverAnnotations, result0))
 //@ ensures inherited: implies(result1 == nil && secCount(*receiverAnnotations) == 0, result0 == parentSecurity)
 
 //@ spec optionalParam(isPointer bool, in definitions.ParamPassedIn) bool = isPointer && in != definitions.PassedInPath
@@ -71,3 +71,22 @@ package metadata
 
 //@ func NewInvalidAnnotationError props C10,C14
 //@ ensures result.error != nil
+
+// TypeRef is an interface implemented by immutable type-reference nodes; Kind/Flatten are assumed to be
+// functions of the node.
+//@ ufunc typeRefKind(t TypeRef) TypeRefKind
+//@ extern github.com/gopher-fleece/gleece/v2/core/metadata.TypeRef.Kind
+//@ ensures result == typeRefKind(recv)
+//@ extern github.com/gopher-fleece/gleece/v2/core/metadata.TypeRef.Flatten
+//@ ensures fresh(result)
+
+//@ func TypeUsageMeta.IsIterable props C10,C14
+//@ requires t.Root != nil
+//@ ensures result == (typeRefKind(t.Root) == TypeRefKindSlice || typeRefKind(t.Root) == TypeRefKindArray)
+
+//@ func TypeUsageMeta.IsContext props C06,C10,C14
+//@ ensures result == (t.Name == "Context" && t.PkgPath == "context")
+
+//@ func ReceiverMeta.RetValsRange props C18,C14
+//@ ensures implies(len(v.RetVals) == 0, result.StartLine == 0 && result.EndLine == 0 && result.StartCol == 0 && result.EndCol == 0)
+//@ ensures implies(len(v.RetVals) == 1, result.StartLine == v.RetVals[0].Range.StartLine && result.EndLine == v.RetVals[0].Range.EndLine && result.StartCol == v.RetVals[0].Range.StartCol && result.EndCol == v.RetVals[0].Range.EndCol)
